@@ -22,8 +22,9 @@ pub enum DomRule {
     Exact,
     /// fewer comparable pairs: key also contains (base state mod 2)
     FinerKey,
-    /// fewer comparable pairs: extra tie-breaking coordinate (the base state index)
-    ExtraCoord,
+    /// the classical DP dominance: a simulates b (every decision sequence feasible from b is feasible from a with
+    /// arc costs at least as large); encoded as indicator coordinates of the greatest simulation preorder
+    Sim,
 }
 
 /// The explicit, self-contained description of one instance (what goes into a replay file).
@@ -68,6 +69,7 @@ pub struct GenOpts {
     pub max_n: usize,
     pub max_s: usize,
     pub reconverge: bool, // few base states, many paths (C09)
+    pub dom_friendly: bool, // some base states are degraded copies of others (so that simulation dominance has pairs)
 }
 
 impl Table {
@@ -101,6 +103,13 @@ impl Table {
                 }
             }
         }
+        if o.dom_friendly && s >= 2 {
+            for l in 0..n { for b in 0..s { if rng.chance(1, 3) {
+                let a = rng.below(s); if a == b || irrelevant[l][a] || irrelevant[l][b] { continue; }
+                // b becomes a degraded copy of a: same successors (some removed), costs lowered by 0..2
+                for x in 0..d { next[l][b][x] = if rng.chance(1, 5) { None } else { next[l][a][x] }; cost[l][b][x] = cost[l][a][x] - rng.below(3) as isize; }
+            } } }
+        }
         let mut order: Vec<usize> = (0..n).collect();
         if rng.chance(1, 2) { for i in (1..n).rev() { let j = rng.below(i + 1); order.swap(i, j); } }
         let rub = match rng.below(3) { 0 => Rub::None, 1 => Rub::Exact, _ => Rub::Slack(1 + rng.below(4) as isize) };
@@ -119,6 +128,8 @@ pub struct Inst {
     pub hstar: Vec<Vec<isize>>,
     /// for depth-free states: max over layers of hstar[.][a]
     pub hmax: Vec<isize>,
+    /// sim[l][a][b]: base state a simulates base state b at layer l (greatest simulation)
+    pub sim: Vec<Vec<Vec<bool>>>,
 }
 
 impl Inst {
@@ -139,7 +150,13 @@ impl Inst {
             }
         }
         let hmax = (0..t.s).map(|a| (0..=t.n).map(|l| hstar[l][a]).max().unwrap()).collect();
-        Inst { t, layer_of, hstar, hmax }
+        let mut sim = vec![vec![vec![true; t.s]; t.s]; t.n + 1];
+        for l in (0..t.n).rev() {
+            for a in 0..t.s { for b in 0..t.s {
+                sim[l][a][b] = (0..t.d).all(|x| match t.next[l][b][x] { None => true, Some(yb) => match t.next[l][a][x] { None => false, Some(ya) => t.cost[l][a][x] >= t.cost[l][b][x] && sim[l + 1][ya as usize][yb as usize] } });
+            } }
+        }
+        Inst { t, layer_of, hstar, hmax, sim }
     }
     pub fn opt(&self) -> Option<isize> { let h = self.hstar[0][0]; if h <= NEG { None } else { Some(self.t.v0 + h) } }
     pub fn root_state(&self) -> TState { self.state_of(0, 0) }
@@ -310,7 +327,13 @@ impl StateRanking for TRank {
     }
 }
 
-/// Admissible dominance rule derived from the reference model (use_value = true).
+/// Dominance rules derived from the reference model (use_value = true). `Exact` / `FinerKey` compare the exact
+/// value-to-go: a verdict "dominated" then means a STRICTLY better total (value + value-to-go), so discards can
+/// never be cyclic. `Sim` is the classical state dominance of dynamic programming (a simulation), where ties are
+/// harmless because the relation is preserved by transitions. A rule that is only bound-wise admissible AND allows
+/// ties (e.g. value-to-go plus an arbitrary tie-breaking coordinate) is deliberately NOT generated: ddo's store
+/// keeps entries of states whose exploration was delegated to other sub-problems, and with such a rule two
+/// equally good sub-problems can discard each other (see DESIGN.md section 7).
 pub struct TDom { pub inst: Arc<Inst>, pub rule: DomRule }
 impl Dominance for TDom {
     type State = TState;
@@ -322,14 +345,16 @@ impl Dominance for TDom {
         Some(match self.rule { DomRule::FinerKey => (l, a % 2), _ => (l, 0) })
     }
     fn nb_dimensions(&self, state: &TState) -> usize {
-        let base = if state.layer.is_some() { 1 } else { self.inst.t.n + 1 };
-        base + if self.rule == DomRule::ExtraCoord { 1 } else { 0 }
+        let per_layer = if self.rule == DomRule::Sim { self.inst.t.s } else { 1 };
+        if state.layer.is_some() { per_layer } else { (self.inst.t.n + 1) * per_layer }
     }
     fn get_coordinate(&self, state: &TState, i: usize) -> isize {
         let a = state.set.trailing_zeros() as usize;
-        match state.layer {
-            Some(l) => if i == 0 { self.inst.hstar[l as usize][a] } else { a as isize },
-            None => if i <= self.inst.t.n { self.inst.hstar[i][a] } else { a as isize },
+        if self.rule == DomRule::Sim {
+            let s = self.inst.t.s;
+            match state.layer { Some(l) => self.inst.sim[l as usize][a][i] as isize, None => self.inst.sim[i / s][a][i % s] as isize }
+        } else {
+            match state.layer { Some(l) => self.inst.hstar[l as usize][a], None => self.inst.hstar[i][a] }
         }
     }
     fn use_value(&self) -> bool { true }
